@@ -89,6 +89,17 @@ func (sp *SAMLServiceProvider) validateLogoutResponseAttributes(response *types.
 	return nil
 }
 
+// xmlUnmarshalDocument decodes a received document like xml.Unmarshal, but reads it the way
+// full validation does (etree): a declared encoding other than UTF-8 is passed through
+// unchanged instead of failing for want of a CharsetReader.
+func xmlUnmarshalDocument(data []byte, obj interface{}) error {
+	decoder := xml.NewDecoder(bytes.NewReader(data))
+	decoder.CharsetReader = func(charset string, input io.Reader) (io.Reader, error) {
+		return input, nil
+	}
+	return decoder.Decode(obj)
+}
+
 func xmlUnmarshalElement(el *etree.Element, obj interface{}) error {
 	doc := etree.NewDocument()
 	doc.SetRoot(el)
@@ -443,7 +454,7 @@ func DecodeUnverifiedBaseResponse(encodedResponse string) (*types.UnverifiedBase
 
 	err = maybeDeflate(raw, defaultMaxDecompressedResponseSize, func(maybeXML []byte) error {
 		response = &types.UnverifiedBaseResponse{}
-		return xml.Unmarshal(maybeXML, response)
+		return xmlUnmarshalDocument(maybeXML, response)
 	})
 	if err != nil {
 		return nil, err
@@ -524,7 +535,7 @@ func DecodeUnverifiedLogoutResponse(encodedResponse string) (*types.LogoutRespon
 
 	err = maybeDeflate(raw, defaultMaxDecompressedResponseSize, func(maybeXML []byte) error {
 		response = &types.LogoutResponse{}
-		return xml.Unmarshal(maybeXML, response)
+		return xmlUnmarshalDocument(maybeXML, response)
 	})
 	if err != nil {
 		return nil, err
